@@ -4,3 +4,4 @@ INVARIANT DefaultsFill
 INVARIANT NoStrayKeys
 INVARIANT Idempotent
 INVARIANT Identities
+INVARIANT NestLaw
